@@ -231,7 +231,7 @@ detail::TypedArgBase*
    arg_hdl->setKey( key);
    arg_hdl->setConstraintsContainer( &mConstraints);
 
-   mSubGroupArgs.addArgument( arg_hdl, key);
+   mSubGroupArgs.addArgument( arg_hdl, key, &mArguments);
    mDescription.addArgument( desc, arg_hdl);
 
    return arg_hdl;
@@ -1363,7 +1363,7 @@ detail::TypedArgBase* Handler::internAddArgument( detail::TypedArgBase* ah_obj,
    ah_obj->setKey( key);
    ah_obj->setConstraintsContainer( &mConstraints);
 
-   mArguments.addArgument( ah_obj, key);
+   mArguments.addArgument( ah_obj, key, &mSubGroupArgs);
    mDescription.addArgument( desc, ah_obj);
 
    if (mUsedByGroup)
